@@ -45,9 +45,17 @@ SnapshotHole(r) ==
   LET fs == r.filesBefore  sg == r.cfg.seg IN
   \E i \in DOMAIN fs : ~fs[i].tmp /\ fs[i].kind = "kv" /\
      \E e \in (fs[i].start + 1)..(fs[i].end - 1) : e % sg = 0 /\ ~Has(fs, fs[i].mod, "kv", fs[i].start, e)
+\* a store that must be back-filled reads a store (of a lower stage) that only starts at or above the hand-off: the lower
+\* stage has no segment to process, its units never complete and the scheduler waits forever
+LowerStoreAboveHandoff(r) ==
+  LET c == r.cfg
+      H == Handoff(c.prod, c.start, c.stop, c.libok, c.lib, StateRequiredAt(StoreInits(prog), c.start), c.seg) IN
+  \E i \in DOMAIN prog : prog[i].kind = "store" /\ prog[i].init < H /\
+     \E k \in DOMAIN prog[i].inputs : prog[i].inputs[k].k = "store" /\ ModByName(prog, prog[i].inputs[k].v).init >= H
 FailSig(r) ==
-  IF SnapshotHole(r) THEN "request_failed:store_snapshot_hole"
-  ELSE IF OutputCachedButStoreSnapshotMissing(r) THEN "request_failed:output_cached_but_store_snapshot_missing"
+  IF "filesBefore" \in DOMAIN r /\ SnapshotHole(r) THEN "request_failed:store_snapshot_hole"
+  ELSE IF "filesBefore" \in DOMAIN r /\ OutputCachedButStoreSnapshotMissing(r) THEN "request_failed:output_cached_but_store_snapshot_missing"
+  ELSE IF LowerStoreAboveHandoff(r) THEN "request_failed:lower_stage_store_starts_above_handoff"
   ELSE IF StoreStagesDroppedFromMatrix(r) THEN "request_failed:store_stages_dropped_stage_index_shift"
   ELSE "request_failed"
 
@@ -101,6 +109,81 @@ TagAll(sigs, r) ==
   IF sigs = <<>> THEN <<>>
   ELSE LET ps == PropsOf(Head(sigs), r) IN [i \in DOMAIN ps |-> ps[i] \o ":" \o Head(sigs)] \o TagAll(Tail(sigs), r)
 
+------------------------------------------------------------------------
+(* C03: fork histories.  The steps were produced by the REAL bstream/forkable from a random fork tree, arrival order and
+   finality progress; the canonical chain is rebuilt from the steps; stores and the client's view must follow it. *)
+Letters == <<"a", "b", "c", "d", "e", "f", "g", "h">>
+BranchOf(id) == (CHOOSE i \in DOMAIN Letters : Letters[i] = SubSeq(id, Len(id), Len(id))) - 1
+FBlk(num, id) == [num |-> num, id |-> id, branch |-> BranchOf(id)]
+
+\* canonical chain after the first k steps
+RECURSIVE CanonAfter(_, _)
+CanonAfter(steps, k) ==
+  IF k = 0 THEN <<>>
+  ELSE LET c == CanonAfter(steps, k - 1)  st == steps[k] IN
+    IF st.step \in {"new", "newirr"} THEN Append(c, FBlk(st.num, st.id))
+    ELSE IF st.step = "undo" THEN (IF c # <<>> /\ c[Len(c)].id = st.id THEN SubSeq(c, 1, Len(c) - 1) ELSE c)
+    ELSE c
+
+\* the client: keeps every data message, drops the blocks above lastValidBlock on an undo signal
+RECURSIVE ClientAfter(_, _)
+ClientAfter(resp, k) ==
+  IF k = 0 THEN [held |-> <<>>, ok |-> TRUE, undoOK |-> TRUE]
+  ELSE LET c == ClientAfter(resp, k - 1)  x == resp[k] IN
+    IF x.kind = "data" THEN
+      [held |-> Append(c.held, x),
+       ok |-> c.ok /\ (c.held = <<>> \/ c.held[Len(c.held)].num < x.num),       \* never two blocks at one height without an undo
+       undoOK |-> c.undoOK]
+    ELSE IF x.kind = "undo" THEN
+      [held |-> SelectSeq(c.held, LAMBDA h : h.num <= x.num),
+       ok |-> c.ok,
+       undoOK |-> c.undoOK /\ (c.held = <<>> \/ (\E i \in DOMAIN c.held : c.held[i].num = x.num /\ c.held[i].id = x.id)
+                                            \/ x.num = c.held[1].num - 1)]    \* designates a held block, or the one before the first
+    ELSE c
+
+ForkFails(r) ==
+  LET steps == r.steps  o == r.obs  c == r.cfg
+      first == IF steps = <<>> THEN 0 ELSE steps[1].num
+      pre == IF first <= LowestInit(prog) THEN <<>>
+             ELSE [k \in 1..(first - LowestInit(prog)) |-> Blk(LowestInit(prog) + k - 1)]     \* back-filled final prefix
+      canonEnd == CanonAfter(steps, Len(steps))
+      full == pre \o canonEnd
+      res == RunChain(prog, full)
+      client == ClientAfter(o.resp, Len(o.resp))
+      \* stores after each step
+      storesOK(k) ==
+        LET ch == pre \o CanonAfter(steps, k)
+            kv == IF ch = <<>> THEN EmptyStores(prog) ELSE RunChain(prog, ch)[Len(ch)].kv IN
+        \A sname \in DOMAIN o.after[k].stores :
+           KVEq(o.after[k].stores[sname], VisibleKV(ModByName(prog, sname).body.pol, kv[sname]))
+      expectedFor(h) == LET idx == CHOOSE i \in DOMAIN full : full[i].id = h.id IN PayloadOf(res[idx], OutMod.name)
+      \* known-finding feature: the request starts above the junction of a reorg (the gate opens on any undo step and,
+      \* once open, lets blocks below the start block through)
+      SAJ == IF \E k \in DOMAIN steps : steps[k].step = "undo" /\ steps[k].jnum + 1 < c.start THEN ":start_above_fork_junction" ELSE ""
+      heldFork == SelectSeq(client.held, LAMBDA h : h.num >= Max(r.base, c.start))
+      canonFork == SelectSeq(canonEnd, LAMBDA b : b.num >= Max(r.base, c.start))
+  IN
+  IF o.panic # "" THEN <<"panic">>
+  ELSE IF o.err # "" THEN <<FailSig(r)>>
+  ELSE IF \E k \in DOMAIN steps : steps[k].step = "undo" /\ steps[k].junction = "" THEN <<>>   \* junction not observable (harness artefact)
+  ELSE
+     F(\A k \in DOMAIN steps : k \in DOMAIN o.after => storesOK(k), "stores_differ_from_canonical_chain_execution")
+  \o F(\A k \in DOMAIN o.after : o.after[k].sizesOK, "store_size_drifted_after_reorg")
+  \o F(client.ok, "two_blocks_at_same_height_without_undo")
+  \o F(client.undoOK, "undo_signal_designates_block_client_does_not_hold" \o SAJ)
+  \o F(\A i \in DOMAIN client.held : \E j \in DOMAIN full : full[j].id = client.held[i].id, "client_holds_block_outside_canonical_chain")
+  \o F(\A i \in DOMAIN client.held : (\E j \in DOMAIN full : full[j].id = client.held[i].id) => client.held[i].payload = expectedFor(client.held[i]),
+       "client_payload_differs_from_canonical_execution")
+  \o F([i \in DOMAIN heldFork |-> heldFork[i].id] = [i \in DOMAIN canonFork |-> canonFork[i].id], "client_does_not_converge_on_canonical_chain")
+  \o F(\A i \in DOMAIN o.resp : o.resp[i].kind = "data" => o.resp[i].num >= c.start, "data_below_start_block" \o SAJ)
+
+ForkProps(sig) == IF Len(sig) >= 22 /\ SubSeq(sig, 1, 22) = "data_below_start_block" THEN <<"C03", "C04">>
+                  ELSE IF Len(sig) >= 14 /\ SubSeq(sig, 1, 14) = "request_failed" THEN <<"C03", "C01">>
+                  ELSE IF sig = "store_size_drifted_after_reorg" THEN <<"C03", "C11">> ELSE <<"C03">>
+RECURSIVE TagFork(_)
+TagFork(sigs) == IF sigs = <<>> THEN <<>>
+                 ELSE LET ps == ForkProps(Head(sigs)) IN [i \in DOMAIN ps |-> ps[i] \o ":" \o Head(sigs)] \o TagFork(Tail(sigs))
+
 ParseFrom(cur) == \* "resume:<num>"
   LET digits == SubSeq(cur, 8, Len(cur))
       RECURSIVE V(_, _)
@@ -123,6 +206,10 @@ Next ==
         /\ prog' = r.prog /\ seg' = r.seg /\ ref' = RunChain(r.prog, FinalChain(r.prog))
         /\ orig' = <<>>
         /\ UNCHANGED <<bad, drift>>
+     ELSE IF r.ev = "forkrun" THEN
+        LET f == TagFork(ForkFails(r)) IN
+        /\ bad' = IF f = <<>> THEN bad ELSE Append(bad, [i |-> l, why |-> f, dbg |-> <<>>])
+        /\ UNCHANGED <<drift, prog, seg, ref, orig>>
      ELSE
         LET from == IF r.cfg.cursor = "" THEN 0 ELSE ParseFrom(r.cfg.cursor)
             f == TagAll(RunFails(r, from) \o ResumeFails(r, from), r)
